@@ -110,8 +110,8 @@ def literal_obligations(chk):
         return _MISSING
     I.hooks["equal"] = equal_hook
     # loops over the declared values (early return on the first equal literal): trivial invariants
-    for k in (0, 1):
-        I.loop_specs[(func, k)] = LoopSpec(f"literals{k}", lambda I, p, e, k_: None, lambda I, p, e, k_: [])
+    # the inner loop over the declared values (early return on the first equal literal): trivial invariant
+    I.loop_specs[(func, 1)] = LoopSpec("literals", lambda I, p, e, k_: None, lambda I, p, e, k_: [])
 
     def mk(I, path):
         t = path.fresh("t")
